@@ -5,6 +5,7 @@ C04 ⇄ C05 bridge, part 2: from the store to the packing graph (`Graph::from_ob
 import FontVerif.Lemmas.TableWriter
 import FontVerif.Lemmas.GraphTopo2
 set_option linter.unusedVariables false
+set_option linter.unusedSimpArgs false
 namespace FontVerif.TableWriter
 open FontVerif FontVerif.Graph
 
